@@ -13,8 +13,8 @@ use serde_json::json;
 use std::collections::{BTreeMap, HashSet};
 use vcore::{Run, Tier, Violation, util};
 use vstore::fix::Wrap;
-use vstore::hist::{NodeOut, run_node};
-use vstore::ops::{Book, Op, alphabet, applicable};
+use vstore::hist::{LightOut, NodeOut, run_light, run_node};
+use vstore::ops::{Book, Mode, Op, Tok, alphabet, applicable};
 
 const CLOCK_BASE: u64 = 1_700_000_000_000;
 const CLOCK_WINDOW: u64 = 64_000;
@@ -39,6 +39,125 @@ struct Child {
     op_is_core: bool,
     op: Op,
     out: NodeOut,
+}
+
+#[derive(Default)]
+struct LightItem {
+    histories: u64,
+    ops: u64,
+    reads: u64,
+    tokens: Vec<u128>,
+    distinct: HashSet<u64>,
+    tolerated: BTreeMap<&'static str, u64>,
+    violations: Vec<Violation>,
+    sigs: HashSet<String>,
+    capped: bool,
+}
+
+/// Token-flow alphabet over the given keys: overwrite with A / B, Update with
+/// the latest and with a stale token, every copy (self-copy included) and
+/// rename between them, delete.
+fn alpha_token(cs: u64, keys: &[u8]) -> Vec<Op> {
+    let a = cs as u32 + 1;
+    let mut out = Vec::new();
+    for k in keys {
+        out.push(Op::Put { key: *k, size: a, var: 0, mode: Mode::Overwrite });
+        out.push(Op::Put { key: *k, size: a, var: 1, mode: Mode::Overwrite });
+        out.push(Op::Put { key: *k, size: a, var: 1, mode: Mode::Update(Tok::Latest) });
+        out.push(Op::Put { key: *k, size: a, var: 1, mode: Mode::Update(Tok::Stale) });
+    }
+    for from in keys {
+        for to in keys {
+            out.push(Op::Copy { from: *from, to: *to, create: false });
+        }
+    }
+    for from in keys {
+        for to in keys {
+            if from != to {
+                out.push(Op::Rename { from: *from, to: *to, create: false });
+            }
+        }
+    }
+    for k in keys {
+        out.push(Op::Delete { key: *k });
+    }
+    out
+}
+
+/// Alphabet of the two-instance mode, keys a and c: every put mode with the
+/// latest / a stale token, multipart, delete, copy and rename between the
+/// keys in both target modes. (Self-rename is left out: it commits nothing
+/// and validates existence against the instance's own cache.)
+fn alpha_two_instances(cs: u64) -> Vec<Op> {
+    let c = cs as u32;
+    let a = c + 1;
+    let mut out = Vec::new();
+    for k in [0u8, 2] {
+        out.push(Op::Put { key: k, size: a, var: 0, mode: Mode::Create });
+        out.push(Op::Put { key: k, size: a, var: 0, mode: Mode::Overwrite });
+        out.push(Op::Put { key: k, size: a, var: 1, mode: Mode::Overwrite });
+        out.push(Op::Put { key: k, size: a, var: 1, mode: Mode::Update(Tok::Latest) });
+        out.push(Op::Put { key: k, size: a, var: 1, mode: Mode::Update(Tok::Stale) });
+        out.push(Op::Multi { key: k, parts: vec![1, c - 1, c + 1], var: 0, abort: false });
+        out.push(Op::Delete { key: k });
+    }
+    for (from, to) in [(0u8, 2u8), (2, 0)] {
+        for create in [false, true] {
+            out.push(Op::Copy { from, to, create });
+            out.push(Op::Rename { from, to, create });
+        }
+    }
+    out
+}
+
+/// Runs `hist` and every extension of it up to `depth` operations.
+#[allow(clippy::too_many_arguments)]
+fn light_rec(
+    wrap: Wrap,
+    alpha: &[Op],
+    depth: usize,
+    two: bool,
+    hist: &mut Vec<Op>,
+    who: &mut Vec<u8>,
+    base: u64,
+    deadline: std::time::Instant,
+    it: &mut LightItem,
+) {
+    if it.capped {
+        return;
+    }
+    if it.histories % 256 == 0 && std::time::Instant::now() >= deadline {
+        it.capped = true;
+        return;
+    }
+    let clock = base + it.histories * 16_000;
+    let out: LightOut = run_light(wrap, hist, who, clock);
+    it.histories += 1;
+    it.ops += out.ops;
+    it.reads += out.reads;
+    it.tokens.extend_from_slice(&out.tokens);
+    it.distinct.insert(util::fnv64(format!("{}|{}", wrap.kind(), out.outcome).as_bytes()));
+    for (k, v) in &out.tolerated {
+        *it.tolerated.entry(k).or_insert(0) += v;
+    }
+    let failed = !out.violations.is_empty();
+    for v in out.violations {
+        if it.sigs.insert(v.signature.clone()) {
+            it.violations.push(v);
+        }
+    }
+    if failed || hist.len() >= depth {
+        return; // a diverged history is not extended
+    }
+    for op in alpha {
+        for w in 0..(if two { 2u8 } else { 1 }) {
+            hist.push(op.clone());
+            who.push(w);
+            light_rec(wrap, alpha, depth, two, hist, who, base, deadline, it);
+            hist.pop();
+            who.pop();
+        }
+    }
 }
 
 fn main() {
@@ -194,6 +313,63 @@ fn main() {
         reps = next;
     }
 
+    // ---- light phases: long single-instance histories about token flow, and
+    // two long-lived instances over one backend (no read battery)
+    let light_cfg = run.tier.pick((3usize, 3usize, 4usize), (4, 4, 5)); // depth: two-instance, token3, token2
+    let mut phases: Vec<(&'static str, Wrap, Vec<Op>, usize, bool)> = Vec::new();
+    for wrap in [Wrap::Meta, Wrap::Enc(16)] {
+        phases.push(("two-instances", wrap, alpha_two_instances(wrap.cs()), light_cfg.0, true));
+        phases.push(("token-flow-3-keys", wrap, alpha_token(wrap.cs(), &[0, 1, 2]), light_cfg.1, false));
+        phases.push(("token-flow-2-keys", wrap, alpha_token(wrap.cs(), &[0, 2]), light_cfg.2, false));
+    }
+    let mut items: Vec<(usize, usize)> = Vec::new(); // (phase, first op)
+    for (pi, p) in phases.iter().enumerate() {
+        for j in 0..p.2.len() {
+            items.push((pi, j));
+        }
+    }
+    let deadline = std::time::Instant::now() + std::time::Duration::from_secs_f64(run.remaining_s().max(2.0));
+    let numbered: Vec<(usize, (usize, usize))> = items.iter().cloned().enumerate().collect();
+    let light_results: Vec<LightItem> = util::par_map(numbered, threads, |(idx, (pi, j))| {
+        let (_, wrap, alpha, depth, two) = &phases[pi];
+        let mut it = LightItem::default();
+        let mut hist = vec![alpha[j].clone()];
+        let mut who = vec![0u8]; // the first op goes through instance A (A and B are symmetric)
+        let base = 1_000_000_000_000u64 + ((idx as u64) << 23) * 16_000;
+        light_rec(*wrap, alpha, *depth, *two, &mut hist, &mut who, base, deadline, &mut it);
+        it
+    });
+    let mut light_table: BTreeMap<String, (u64, u64)> = BTreeMap::new();
+    for ((pi, _), it) in items.iter().zip(light_results) {
+        let (name, wrap, _, depth, _) = &phases[*pi];
+        let e = light_table.entry(format!("{name} / {} / depth {depth}", wrap.label())).or_insert((0, 0));
+        e.0 += it.histories;
+        e.1 += it.distinct.len() as u64;
+        run.add("transitions", it.histories);
+        run.add("traces_validated_against_impl", it.histories);
+        run.add("light_histories", it.histories);
+        run.add("evaluations", it.ops + it.reads);
+        run.add("mutations_compared", it.ops);
+        for d in &it.distinct {
+            run.distinct(*d ^ (*pi as u64).wrapping_mul(0x9E3779B97F4A7C15));
+        }
+        for (k, v) in &it.tolerated {
+            *tolerated.entry(k.to_string()).or_insert(0) += v;
+        }
+        tokens.extend_from_slice(&it.tokens);
+        if it.capped && !capped {
+            capped = true;
+            run.cap_hit(&format!("time budget: light phase {name} / {} not finished", wrap.label()));
+        }
+        for v in it.violations {
+            run.violation(v);
+        }
+    }
+    run.set(
+        "light_phases",
+        json!(light_table.iter().map(|(k, (n, d))| json!({"phase": k, "histories": n, "distinct_outcomes": d})).collect::<Vec<_>>()),
+    );
+
     // across all executions (disjoint logical-time windows) no token repeats
     let n_tokens = tokens.len();
     tokens.sort_unstable();
@@ -218,11 +394,12 @@ fn main() {
          beyond it, one representative history per distinct state (reference content + token-chain shape) is extended, up to `dedup_depth`; \
          each history runs on a fresh wrapper + fresh InMemory reference, then the read battery runs on the warm and on a cold wrapper instance; \
          distinct = (wrapper config, resulting state, last op shape, its result class); \
+         light phases (no read battery; every mutation class, the CAS / create rule, token freshness and the final content through a fresh instance are checked): token-flow histories (overwrite / Update latest / Update stale / every copy incl. self-copy / rename / delete) over 3 keys and, one deeper, over 2 keys, all exhaustive; two-instance histories over keys a, c where every operation after the first is issued through long-lived instance A or B (every assignment), one InMemory reference receiving all operations - reads through the long-lived instances are not compared (a second instance's cache may lag by design), write-side decisions must equal the reference's; \
          three reference behaviours are normalised and counted in `tolerated_deviations` instead of compared: delete of a missing key (wrapper NotFound, InMemory Ok; store-dependent per object_store docs), self-rename with Overwrite (InMemory's default copy+delete destroys the object; modelled as no change) and Update without e_tag on a present key (InMemory Generic, wrapper Precondition; both reject)",
     );
     run.assume("object_store::memory::InMemory 0.14.1 is the reference semantics, except: delete of a missing key (store-dependent per object_store docs), its self-rename (destroys the object) and the error variant it uses for an Update without e_tag");
     run.assume("tokens are compared by role (latest / stale / other key's / fabricated), never by value; date conditions are built per store from that store's own reported last_modified");
-    run.assume("cache states covered: the instance that made every commit (warm) and a fresh instance (cold); a second long-lived instance with a lagging cache is outside the single-writer contract");
+    run.assume("cache states covered: the instance that made every commit (warm), a fresh instance (cold), and - for mutations only - two long-lived instances used alternately; what a READ through a lagging second instance returns is not judged (cache TTL semantics)");
     run.finish();
 }
 
@@ -232,6 +409,17 @@ fn replay(mut run: Run, file: &std::path::Path) -> ! {
     let wrap: Wrap = serde_json::from_value(r["wrap"].clone()).expect("wrap");
     let hist: Vec<Op> = serde_json::from_value(r["history"].clone()).expect("history");
     let clock = r["clock"].as_u64().unwrap_or(CLOCK_BASE);
+    if r["mode"].as_str() == Some("light") {
+        let who: Vec<u8> = serde_json::from_value(r["who"].clone()).expect("who");
+        let out = run_light(wrap, &hist, &who, clock);
+        run.add("traces_validated_against_impl", 1);
+        run.add("evaluations", out.ops + out.reads);
+        for v in out.violations {
+            println!("  -> {}", v.summary);
+            run.violation(v);
+        }
+        run.finish();
+    }
     println!("replaying {} on {}", hist.iter().map(|o| o.short()).collect::<Vec<_>>().join("; "), wrap.label());
     let out = run_node(wrap, &hist, clock, true);
     run.add("traces_validated_against_impl", 1);
